@@ -110,6 +110,9 @@ func judgeFile(c *vlib.Ctx, writer, crash string, path string, old []byte, isNew
 		return
 	case bytes.Equal(b, old):
 		c.Distinct("nontrivial", writer+":"+crashClass(crash)+":old")
+		if c.Counter("file_crash_points_checked") <= 3 {
+			c.Sample(map[string]any{"part": "file_replacement", "writer": writer, "crash": crash, "file_after_crash": "complete old content"})
+		}
 	case isNew(b):
 		c.Distinct("nontrivial", writer+":"+crashClass(crash)+":new")
 	default:
